@@ -105,6 +105,12 @@ func checkRegexpSource(r *Run, prog *Program, a *Anchors, pfx string) {
 					si = &siteInfo{pos: prog.pos(ev.Instr.Pos()), ops: map[string]bool{}, okArg: true}
 					sites[ev.Instr] = si
 				}
+				if ev.Callee.Name() != "Compile" {
+					// CompilePOSIX (leftmost-longest, no Perl classes), MustCompile (panics) … are other languages or other
+					// failure modes than the one the statement names
+					si.okArg = false
+					si.argDesc = "regexp." + ev.Callee.Name() + "(…): another matching semantics than regexp.Compile's"
+				}
 				arg := ev.Args[0]
 				// *(&(*(&X.Value)).Raw): the Raw text of some match expression's value
 				isRaw := arg.K == sLoad && arg.A.K == sFieldAddr && arg.A.Str == "Raw" && arg.A.A != nil && arg.A.A.K == sLoad && arg.A.A.A.K == sFieldAddr && arg.A.A.A.Str == "Value"
@@ -118,6 +124,8 @@ func checkRegexpSource(r *Run, prog *Program, a *Anchors, pfx string) {
 				}
 				if !isRaw {
 					si.okArg = false
+					si.argDesc = shortKey(arg)
+				} else if !si.okArg && si.argDesc == "" {
 					si.argDesc = shortKey(arg)
 				}
 				// which operators is this path restricted to?
@@ -431,4 +439,38 @@ func checkMatcherOperatorBlind(r *Run, prog *Program, a *Anchors, pfx string) {
 		}
 	}
 	r.Check(pfx+".matcher-operator-blind", "census", "", len(a.Matchers) > 0 && n > 0, fmt.Sprintf("info: %d field accesses in %d matcher functions examined", n, len(part)))
+}
+
+// checkActionsDoNotRewrite: a semantic action builds its node from the values of its labels; it does not write through
+// them. A value produced by a sub-rule (a literal's MatchValue, a selector) that one action rewrites is no longer what its
+// own rule said it is — and two spellings that share the sub-rule (`v in S` / `S contains v`) stop meaning the same.
+func checkActionsDoNotRewrite(r *Run, prog *Program, pfx string) {
+	n := 0
+	for _, fn := range prog.ModuleFuncs() {
+		if fn.Pkg != prog.GrammarSSA || !prog.isActionFunc(fn) || fn.Signature.Recv() == nil || !namedIs(fn.Signature.Recv().Type(), grammarPath, "current") {
+			continue
+		}
+		n++
+		for _, b := range fn.Blocks {
+			for _, ins := range b.Instrs {
+				var addr ssa.Value
+				switch x := ins.(type) {
+				case *ssa.Store:
+					addr = x.Addr
+				case *ssa.MapUpdate:
+					addr = x.Map
+				}
+				if addr == nil {
+					continue
+				}
+				root, chain := rootOf(addr)
+				par, ok := root.(*ssa.Parameter)
+				if !ok || len(fn.Params) == 0 || par == fn.Params[0] || len(chain) == 0 {
+					continue
+				}
+				r.Check(pfx+".action-reads-labels", fn.Name()+":"+par.Name(), prog.pos(ins.Pos()), false, "action "+fn.Name()+" writes through its label "+par.Name()+": the value another rule produced is changed after the fact")
+			}
+		}
+	}
+	r.Check(pfx+".action-reads-labels", "census", "grammar/grammar.go", n >= 20, fmt.Sprintf("info: %d actions examined", n))
 }
